@@ -19,7 +19,7 @@ RULE = ('seeded generator: circular / hexagon-like / segmented / off-centre / sp
 ASSUMPTIONS = ['modes linearly independent on the mask (condition number < 1e8), as the property requires']
 PLAN = {'quick': {'gen': 8}, 'thorough': {'gen': 16, 'tests': 1}}
 REQUIRED_BUCKETS = ['modes:contiguous', 'modes:noncontiguous', 'modes:unordered', 'modes:single-high', 'normalize:True',
-                    'normalize:False', 'coords:default', 'coords:supplied', 'mask:circular', 'mask:segmented', 'mask:offcentre', 'mask:weighted', 'mask:subaperture', 'cond>1e4', 'coords:switched', 'outside:fill', 'coeffs:vector-forms', 'modes:very-high', 'modes:permuted-prefix', 'modes:many', 'modes:array-forms', 'coords:half-supplied']
+                    'normalize:False', 'coords:default', 'coords:supplied', 'mask:circular', 'mask:segmented', 'mask:offcentre', 'mask:weighted', 'mask:subaperture', 'cond>1e4', 'coords:switched', 'outside:fill', 'coeffs:vector-forms', 'modes:very-high', 'modes:permuted-prefix', 'modes:many', 'modes:array-forms', 'coords:half-supplied', 'coords:narrow-float']
 REQUIRED_ANCHORS = ['anchor:zernike_fit', 'anchor:zernike_remove', 'anchor:zernike_compose', 'anchor:zernike_basis']
 REQUIRED_ORACLES = ['compose=own-basis', 'fit=coeffs', 'remove:residual-coeffs=0', 'remove=lstsq', 'remove:idempotent',
                     'remove:pure->0']
@@ -140,6 +140,13 @@ def workload(ctx, lentil):
             rho = rad / (rad[mask].max() if not sub else 0.5 * shape[0])
             theta = np.arctan2(ii - r0, jj - c0) + rng.uniform(0, 2 * np.pi)
             kw = dict(rho=rho, theta=theta)
+            if i % 5 == 3:
+                # coordinate arrays kept in single / half precision (a stored coordinate cube): the same numbers as doubles
+                nt_ = [np.float32, np.float16][(i // 5) % 2]
+                rho_n, theta_n = rho.astype(nt_), np.mod(theta, 2 * np.pi).astype(nt_)
+                rho, theta = rho_n.astype(float), theta_n.astype(float)
+                kw = dict(rho=rho_n, theta=theta_n)
+                ctx.bucket('coords:narrow-float')
         else:
             with probe.quiet():
                 rho, theta = lentil.zernike_coordinates(mask.astype(float))
